@@ -82,6 +82,8 @@ type scenario struct {
 	unow      int64  // clock at the time of UpdateBlockTime (0: now + 31)
 	diffObs   string // rendered by observe
 	// internal tuning values of the generator, read from the tree and passed to the model
+	race bool  // the tip moves forward while NewBlockTemplate runs (pinned through the source)
+	reuse bool // op "reuse"
 	mhp uint64 // order key (IEEE bits) of mining.MinHighPriority; 0 = not on the line
 	bho int64  // blockHeaderOverhead; 0 = not on the line
 	dp, hist  string // difficulty parameters and header history (tip first) for worlds with retargeting
@@ -166,6 +168,8 @@ func (s *scenario) line() string {
 	var b strings.Builder
 	if s.two {
 		fmt.Fprintf(&b, "C12 two ka=%d rev=%s conc=%s w=%d", s.ka, b2s(s.rev), b2s(s.conc), s.world)
+	} else if s.reuse {
+		fmt.Fprintf(&b, "C12 reuse w=%d", s.world)
 	} else {
 		fmt.Fprintf(&b, "C12 tmpl w=%d", s.world)
 	}
@@ -189,6 +193,9 @@ func (s *scenario) line() string {
 	}
 	if s.mhp != 0 {
 		fmt.Fprintf(&b, " mhp=%d bho=%d", s.mhp, s.bho)
+	}
+	if s.race {
+		b.WriteString(" race=1")
 	}
 	if s.dp != "" {
 		fmt.Fprintf(&b, " dp=%s hist=%s", s.dp, s.hist)
@@ -339,6 +346,8 @@ func parseScenario(f []string) *scenario {
 			s.uc = v == "1"
 		case "en":
 			s.en = puint(v)
+		case "race":
+			s.race = v == "1"
 		case "mhp":
 			s.mhp = puint(v)
 		case "bho":
@@ -408,7 +417,7 @@ func parseScenario(f []string) *scenario {
 // chain after the optional reorganisation.
 func (s *scenario) chainTimes() []int64 {
 	ts := []int64{regtestGenesisTime}
-	for h := 1; h <= worldBlocks; h++ {
+	for h := 1; h <= blocksOf(s.world); h++ {
 		ts = append(ts, worldT0+spacing(s.world)*int64(h))
 	}
 	if s.reorged() {
@@ -438,7 +447,7 @@ func (s *scenario) mtpAt(height int) int64 {
 	return last[len(last)/2]
 }
 
-func (s *scenario) reorged() bool { return s.roK > worldBlocks-s.roF }
+func (s *scenario) reorged() bool { return s.roK > blocksOf(s.world)-s.roF }
 
 func (s *scenario) deriveFacts() {
 	ts := s.chainTimes()
